@@ -25,9 +25,29 @@ UNITS = {
     'stream': {'rlimit': 50, 'timeout': 240},
     'reader': {'rlimit': 50, 'timeout': 120},
     'registry': {'rlimit': 50, 'timeout': 120},
+    'ops': {'rlimit': 50, 'timeout': 240},
+    'heap': {'rlimit': 50, 'timeout': 120},
+    'optrace': {'rlimit': 50, 'timeout': 120},
+    'difftrace': {'rlimit': 50, 'timeout': 120},
 }
 
 PROPS = {
+    'C05': {
+        'units': ['ops', 'heap', 'optrace', 'difftrace'],
+        'kani': [],
+        'level_text': 'Proof: the real bodies of Union/Intersection/SymmetricDifference/Difference::next are verified against an abstraction '
+                      'of the stream heap (the item of each stream in the heap + what each stream has not yielded yet): each call performs '
+                      'union steps at the minimal outstanding key and reports exactly the (index, value) pairs of the streams headed by that '
+                      'key, filtered by at-least-one / all / odd / first-only. Spec-level trace theorems derive ascending order, '
+                      'each-key-once, completeness and soundness w.r.t. the original streams. StreamHeap::{new,pop,peek_is_duplicate,'
+                      'pop_if_equal,pop_if_le,refill,num_slots} and Slot::{new,set_input,set_output} are verified on their real bodies.',
+        'level_note': 'Trusted: a contract for std BinaryHeap on a ghost bag (pop/peek return a maximum), Slot order = reverse '
+                      'lexicographic (key, output) (tuple Ord from std), each user stream modelled by its abstract remainder rest() (the '
+                      'property premise: strictly increasing keys). The ops unit and the heap unit phrase the heap state in two '
+                      'vocabularies; their correspondence is argued. is_disjoint/is_subset/is_superset (loops over op.next()) not decided.',
+        'explanation': '',
+        'assumptions': ['is_disjoint / is_subset / is_superset corollaries: not decided'],
+    },
     'C12': {
         'units': ['registry', 'builder'],
         'kani': [],
